@@ -180,6 +180,13 @@ def passiveLink (l : LinkIn α) : List α :=
 def forward (passive bias tau : List α) : List α :=
   List.zipWith (fun pb t => pb + t) (List.zipWith (fun p b => p - b) passive bias) tau
 
+/-! ### dense linear algebra used to state the contract of the linear solve -/
+
+/-- `a · b` -/
+def dot (a b : List α) : α := (List.zipWith (· * ·) a b).foldr (· + ·) 0
+/-- `m @ v` -/
+def matVec (m : List (List α)) (v : List α) : List α := m.map fun r => dot r v
+
 end ring
 
 /-! ## `actuator.to_tau` over the platform's `ActP` (the actuator property itself is C11) -/
